@@ -79,7 +79,7 @@ def run(tier, seed, replay):
                 c[key] = list(c[key]) + rng0.sample(far, rng0.randrange(1, 3))
                 rng0.shuffle(c[key])
         # long lists (dozens of entries: repeated cycles, never-reached cycles), again without changing the meaning
-        if rng0.random() < 0.25:
+        if rng0.random() < 0.25 or (c.get("p") == 4 and set(c.get("ints", [])) & set(c.get("resets", []))):
             for key in ("ints", "resets"):
                 if key in c:
                     base = list(c[key])
